@@ -12,10 +12,10 @@
 EXTENDS Integers, FiniteSets, TLC
 
 CONSTANTS Elems, Workers, MaxT, MaxSizes,
-          Variant   \* "code"               the tree after the fix: commits (see findings/C18.json)
-                    \* "select_race"        no re-check of the cancel channel after the timer / ctx case (code before the fix)
-                    \* "add_unguarded"      Add tests IsShutdown before taking the heap mutex (code before the fix)
-                    \* "broadcast_if_empty" Shutdown wakes waiting pollers only when the heap is empty (code before the fix)
+          Variant   \* "code"               the tree after the fix: commits bbccf51, f186082, ae10602 (see findings/C18.json)
+                    \* "select_race"        no re-check of the cancel channel after the timer / ctx case (code before bbccf51)
+                    \* "add_unguarded"      Add tests IsShutdown before taking the heap mutex (code before f186082)
+                    \* "broadcast_if_empty" Shutdown wakes waiting pollers only when the heap is empty (code before ae10602)
                     \* "early_timer"        mutation: the timer fires one tick early
                     \* "cancel_keeps_heap"  mutation: Cancel does not remove the element from the heap
                     \* "shutdown_drains"    mutation: Shutdown without flags empties the heap
